@@ -105,6 +105,20 @@ async def consume_a(b, plan, close, keep=None):
         if isinstance(o, list) and o[0] == "mutate":
             mutate_source(b, o)
             continue
+        if isinstance(o, list) and o[0] == "repoll":
+            # an iterator that reported exhaustion is asked again: it must still be exhausted
+            if o[1] < len(outs) and done[o[1]] == "stop":
+                try:
+                    value = await outs[o[1]].__anext__()
+                except StopAsyncIteration:
+                    ctx.ev("stop", o[1])
+                except BaseException as exc:  # noqa: B902
+                    ev_raise(ctx, o[1], exc)
+                    done[o[1]] = True
+                else:
+                    ctx.ev("yield", o[1], sig(value))
+                    del value
+            continue
         if isinstance(o, list):  # ["close", child]: close one output early, its siblings continue
             if o[1] < len(outs) and not done[o[1]]:
                 closer = getattr(outs[o[1]], "aclose", None)
@@ -119,7 +133,7 @@ async def consume_a(b, plan, close, keep=None):
             value = await outs[o].__anext__()
         except StopAsyncIteration:
             ctx.ev("stop", o)
-            done[o] = True
+            done[o] = "stop"
         except BaseException as exc:  # noqa: B902 - recorded as data
             ev_raise(ctx, o, exc)
             done[o] = True
@@ -162,6 +176,19 @@ def consume_s(b, plan, keep=None):
         if isinstance(o, list) and o[0] == "mutate":
             mutate_source(b, o)
             continue
+        if isinstance(o, list) and o[0] == "repoll":
+            if o[1] < len(outs) and done[o[1]] == "stop":
+                try:
+                    value = next(outs[o[1]])
+                except StopIteration:
+                    ctx.ev("stop", o[1])
+                except Exception as exc:
+                    ev_raise(ctx, o[1], exc)
+                    done[o[1]] = True
+                else:
+                    ctx.ev("yield", o[1], sig(value))
+                    del value
+            continue
         if isinstance(o, list):  # the stdlib counterpart of closing a child is dropping it
             if o[1] < len(outs) and not done[o[1]]:
                 outs[o[1]] = None
@@ -174,7 +201,7 @@ def consume_s(b, plan, keep=None):
             value = next(outs[o])
         except StopIteration:
             ctx.ev("stop", o)
-            done[o] = True
+            done[o] = "stop"
         except Exception as exc:
             ev_raise(ctx, o, exc)
             done[o] = True
